@@ -2,6 +2,7 @@ from __future__ import division, print_function
 import numpy as np
 from bct.utils import BCTParamError, binarize, get_rng
 from bct.utils import pick_four_unique_nodes_quickly
+from ..utils.miscellaneous_utilities import _verif
 from .clustering import number_of_components
 from ..citations import MASLOV2002, SPORNS2004, RUBINOV2011
 from ..due import BibTeX, due
@@ -124,6 +125,7 @@ def latmio_dir_connected(R, itr, D=None, seed=None):
                         j[e1] = d
                         j[e2] = b  # reassign edge indices
                         eff += 1
+                        _verif('swap', fn='latmio_dir_connected', R=R, i=i, j=j, e1=e1, e2=e2, a=a, b=b, c=c, d=d)
                         break
             att += 1
 
@@ -221,6 +223,7 @@ def latmio_dir(R, itr, D=None, seed=None):
                     j[e1] = d
                     j[e2] = b  # reassign edge indices
                     eff += 1
+                    _verif('swap', fn='latmio_dir', R=R, i=i, j=j, e1=e1, e2=e2, a=a, b=b, c=c, d=d)
                     break
             att += 1
 
@@ -360,6 +363,7 @@ def latmio_und_connected(R, itr, D=None, seed=None):
                         j[e1] = d
                         j[e2] = b
                         eff += 1
+                        _verif('swap', fn='latmio_und_connected', R=R, i=i, j=j, e1=e1, e2=e2, a=a, b=b, c=c, d=d)
                         break
             att += 1
 
@@ -467,6 +471,7 @@ def latmio_und(R, itr, D=None, seed=None):
                     j[e1] = d
                     j[e2] = b
                     eff += 1
+                    _verif('swap', fn='latmio_und', R=R, i=i, j=j, e1=e1, e2=e2, a=a, b=b, c=c, d=d)
                     break
             att += 1
 
@@ -1204,6 +1209,7 @@ def randmio_dir_connected(R, itr, seed=None):
                     j[e1] = d  # reassign edge indices
                     j[e2] = b
                     eff += 1
+                    _verif('swap', fn='randmio_dir_connected', R=R, i=i, j=j, e1=e1, e2=e2, a=a, b=b, c=c, d=d)
                     break
             att += 1
 
@@ -1272,6 +1278,7 @@ def randmio_dir(R, itr, seed=None):
                 i[e1] = d
                 j[e2] = b  # reassign edge indices
                 eff += 1
+                _verif('swap', fn='randmio_dir', R=R, i=i, j=j, e1=e1, e2=e2, a=a, b=b, c=c, d=d)
                 break
             att += 1
 
@@ -1391,6 +1398,7 @@ def randmio_und_connected(R, itr, seed=None):
                     j[e1] = d
                     j[e2] = b  # reassign edge indices
                     eff += 1
+                    _verif('swap', fn='randmio_und_connected', R=R, i=i, j=j, e1=e1, e2=e2, a=a, b=b, c=c, d=d)
                     break
             att += 1
 
@@ -1551,6 +1559,7 @@ def randmio_und(R, itr, seed=None):
                 j[e1] = d
                 j[e2] = b  # reassign edge indices
                 eff += 1
+                _verif('swap', fn='randmio_und', R=R, i=i, j=j, e1=e1, e2=e2, a=a, b=b, c=c, d=d)
                 break
             att += 1
 
@@ -1694,6 +1703,7 @@ def randomize_graph_partial_und(A, B, maxswap, seed=None):
             j[e1] = d
             j[e2] = b  # reassign edge indices
             nswap += 1
+            _verif('swap', fn='randomize_graph_partial_und', R=A, i=i, j=j, e1=e1, e2=e2, a=a, b=b, c=c, d=d)
     return A
 
 
